@@ -1,4 +1,4 @@
-// finding=F33 property=C01,C06 status=known kind=exec-spirv
+// finding=F33 property=C01,C06 status=fixed kind=exec-spirv
 // const C: u32 = -(-2147483647) must be 2147483647; naga stores the bits of the float 2147483648.0
 // expect 0,0[0] = 2147483647
 @group(0) @binding(0) var<storage,read_write> o: array<u32,16>;
